@@ -14,7 +14,7 @@ SPACE = {
  "C04": "19 000 [25 800] GSUB programs (single, ctxflags, nest, reach, pair, shared, variations, misc) x encodings x strings <= 3-4 [4-5] x 3 seams; class frac: 38 [85] liga / ccmp / frac lookup lists x 12 297 [122 938] prefix x fraction x suffix texts x 3 masks x 2 seams",
  "C05": "7 860 GPOS programs (single, pair, pairskip, cursive, cursiveadjust, markbase/marklig/markmark, markadjust, context, combo, overflow) x 4 [7] encodings x strings <= 3-4 [4-5] x components x 6 tuples x 2 directions x 2 hmtx variants; kern tables (formats 0/2, coverage bits, several subtables) x strings",
  "C06": "cmap 0/2/4/6/10/12 structures (<= 2 [3] segments/groups, 4 terminator forms, lead-byte trail ranges), 3 seams, lookup <-> enumeration both ways, all ordered selections of <= 3 encoding records, symbol / Mac Roman / Big5 laws over all bytes, codes, characters; Big5 both ways against the independent index",
- "C07": "51 [54] sources: 35 small fonts with all ordered lists <= 4 [5] (fixtures in sfnt/WOFF/WOFF2 containers, -2 composites, synthetic cmap shapes incl. format 12 identity, Windows Big5 and aliased characters over a short hmtx, a six-level composite chain, two CID fonts with mixed local subrs, sixteen CFF/CFF2 model fonts; two 8000-glyph cmap sources at the format 4 size limit); large fonts: [0,g], neighbours, ranges at 2/255/256/257/n, tail, one glyph per composite class, Font DICT boundaries, Mac Roman thresholds, character neighbourhoods with an astral/BMP glyph at every position; x subset / prince (4 cmap targets) / CID conversion; outlines through allsorts' visitors and, for CFF outputs, through the independent C18 reader + interpreter and the model paths, with the CFF's declared advances, DICT values, strings and glyph names; metrics of requested and appended glyphs",
+ "C07": "52 [55] sources: 29 small fonts with all ordered lists <= 4 [5] (fixtures in sfnt/WOFF/WOFF2 containers, -2 composites, synthetic cmap shapes incl. format 12 identity, Windows Big5, glyphIdArray holes under idDelta, Mac Roman mixes and aliased characters over a short hmtx, WOFF2 fixtures judged against their sfnt twins, a six-level composite chain, two CID fonts with mixed local subrs, sixteen CFF/CFF2 model fonts; two 8000-glyph cmap sources at the format 4 size limit); large fonts: [0,g], neighbours, ranges at 2/255/256/257/n, tail, one glyph per composite class, Font DICT boundaries, Mac Roman thresholds, character neighbourhoods with an astral/BMP glyph at every position; x subset / prince (4 cmap targets) / CID conversion; outlines through allsorts' visitors and, for CFF outputs, through the independent C18 reader + interpreter and the model paths, with the CFF's declared advances, DICT values, strings and glyph names; metrics of requested and appended glyphs",
  "C08": "same enumeration as C07; source and output cmap read by the independent reader (honours subtable lengths) and compared in character space; independent Mac Roman table and Big5 index; Symbol sources through usFirstCharIndex",
  "C09": "every successful output of the C07 enumeration + whole_font over all tag subsets of three fonts + instances of 5 variable fixtures at {{min, default, max, midpoints}}^axes and of ~900 C12 model fonts + WOFF2 reconstructions of 6 fixtures and 265 [724] C11 model files, through the independent validator and then the library itself",
  "C10": "tag subsets <= 3 [4] x length menu x 3 flavours x order deviations; TTC 1-2 [3] members x sharing patterns x 4 layouts x shared directories x 2 versions, member indices up to 2^63; WOFF with every stored/deflated assignment, metadata/private blocks, corrupt predecessors on the same thread; 3 072 files whose tables collide on length / checksum / bytes x query orders",
